@@ -251,6 +251,9 @@ impl Analyzable for Statement
 			{
 				analyzer.is_in_block = false;
 
+				// The then-branch of an else-if is not itself an else-branch.
+				analyzer.is_naked_else_branch = false;
+
 				analyzer.is_naked_then_branch = true;
 				let then_branch = Box::new(then_branch.analyze(analyzer));
 				analyzer.is_naked_then_branch = false;
